@@ -156,6 +156,13 @@ def make_hoomd(recipe):
     return frames, xyz, lengths
 
 
+# text redrawn in place with a bare carriage return (progress meters): one "line" on a terminal,
+# several for every reader that honours universal newlines
+CHATTER_CR = (
+    "Equilibrating   10 %\rEquilibrating   50 %\rEquilibrating  100 %",
+    "  minimising ... |\r  minimising ... /\r  minimising ... done",
+)
+
 CHATTER_UNICODE = (
     'print "σ = 3.4 Å, ε/k_B = 120 K"',
     "# Daten aus /home/müller/läufe/T=0.45 — zweiter Versuch",
@@ -174,6 +181,8 @@ def make_log(recipe):
 
     eol = "\r\n" if recipe.get("crlf") else "\n"
     pool = CHATTER + CHATTER_UNICODE if recipe.get("unicode") else CHATTER
+    if recipe.get("cr_meter"):
+        pool = pool + CHATTER_CR
 
     def chatter(k):
         for _ in range(k):
@@ -460,7 +469,8 @@ class World(WorldBase):
         if rng.random() < 0.2:
             keys.append(K + 3)                       # a key no atom has
         mol = {str(k): rng.randint(1, 9) for k in keys}
-        return {"op": "read_center", "path": p, "moltypes": mol, "via": rng.choice(["DumpReader", "wrapper", "keep"])}
+        return {"op": "read_center", "path": p, "moltypes": mol, "via": rng.choice(["DumpReader", "wrapper", "keep"]),
+                "mapkind": rng.choice(["dict", "dict", "dict", "defaultdict", "Counter", "OrderedDict"])}
 
     def gen_hoomd(self, rng):
         dcd = rng.random() < 0.5
@@ -493,6 +503,7 @@ class World(WorldBase):
                 "recipe": {"nsec": rng.randint(0, 4), "maxrows": rng.choice([2, 6]),
                            "tail": rng.choice(["none", "none", "full-rows", "partial-row"]),
                            "nonfinite": rng.random() < 0.3, "unicode": rng.random() < 0.3, "crlf": rng.random() < 0.15,
+                           "cr_meter": rng.random() < 0.25,
                            "crashed": sorted(rng.sample(range(4), rng.randint(1, 2))) if rng.random() < 0.2 else [],
                            "subseed": rng.randrange(1 << 40)}}
 
@@ -877,10 +888,24 @@ class World(WorldBase):
         ndim = d["ndim"]
         mol = {int(k): int(v) for k, v in op["moltypes"].items()}
         tag = "read_center"
+        mk = op.get("mapkind", "dict")
+
+        def as_given(m):
+            # "all type maps": the same mapping held in one of the dict types people fill in loops
+            import collections
+            if mk == "defaultdict":
+                d = collections.defaultdict(int)
+                d.update(m)
+                return d
+            if mk == "Counter":
+                return collections.Counter(m)
+            if mk == "OrderedDict":
+                return collections.OrderedDict(m)
+            return dict(m)
         if op["via"] == "wrapper":
-            snaps, failed = self._read(op, lambda: read_lammps_centertype_wrapper(op["path"], ndim, dict(mol)), tag)
+            snaps, failed = self._read(op, lambda: read_lammps_centertype_wrapper(op["path"], ndim, as_given(mol)), tag)
         else:
-            mine = dict(mol)                                  # the client's own dict, held by the reader
+            mine = as_given(mol)                              # the client's own dict, held by the reader
             rd = DumpReader(op["path"], ndim=ndim, filetype=DumpFileType.LAMMPSCENTER, moltypes=mine)
             _, failed = self._read(op, rd.read_onefile, tag)
             snaps = rd.snapshots
